@@ -135,6 +135,21 @@ CHECKS["C21"] = dict(
     technique="Coq proof + registry translated each run + correspondence with get_rulepack", design_ref="§25",
 )
 
+CHECKS["C29"] = dict(
+    category="proof",
+    text=("Every bundled dialect is imported, expanded and translated on every run into a reference graph and a lexer matcher table "
+          "(coq/generated/Gen_dialect_<d>.v); kernel-checked theorems closed_<d> (a reachability certificate accepted by the verified checker, "
+          "C29_certificate_sound / C29_no_dangling) and lexer_ok_<d> (C29_lexer_accepts_any_character: whitespace + newline + last-resort matcher "
+          "make progress on every non-empty text) are conjoined over ALL bundled dialects in all_bundled_dialects_complete / "
+          "all_bundled_lexers_total. The space (bundled dialects x their reachable names) is finite and completely enumerated, so this is a "
+          "proof of the property for the current tree. Each dangling (dialect, name) is replayed on the real dialect.ref(); the real lexers are "
+          "run on every code point and random strings (lossless, no raise, one LXR per unlexable token)."),
+    note=("Trusted: Coq kernel/vm_compute, translator harness/gen_dialects.py (cross-checked against dialect.ref()), decoder Base/Decode.v, the "
+          "reading of three regex templates as first-character predicates (checked against the real `regex` on all 0x110000 code points). "
+          "Open findings: references pinned as errors by test/fixtures/parity/regressions.yml. No axioms."),
+    technique="translator + kernel-checked decision procedure over all bundled dialects (complete enumeration)", design_ref="§33",
+)
+
 NOT_YET = "no check built yet in this round (planned: see DESIGN.md section for this property)"
 
 
